@@ -29,6 +29,7 @@ import (
 // goroutine of the program's first init function stays parked (one small goroutine per deployment).
 
 const (
+	appLockSlot  = 1001 // of rend's 1024 lock-set slots
 	appMainPort  = 11211
 	appBatchPort = 11212
 )
@@ -62,6 +63,8 @@ type appInst struct {
 	dialed  map[int][]*fakemc.Conn
 	args    []string
 	listens []string
+	// lastLockSlot: the program created the lock sets appLockSlot..lastLockSlot (one, as written)
+	lastLockSlot uint32
 	// Problems: things the program did that the harness did not expect (unknown listen address,
 	// unknown backend address, flag errors)
 	Problems []string
@@ -103,7 +106,9 @@ func (w *World) startApp() {
 	in.lst[0] = &appListener{addr: fmt.Sprintf(":%d", appMainPort), ch: make(chan net.Conn), stop: in.stop, ready: make(chan struct{})}
 	in.lst[1] = &appListener{addr: fmt.Sprintf(":%d", appBatchPort), ch: make(chan net.Conn), stop: in.stop, ready: make(chan struct{})}
 	in.args = w.Cfg.AppArgs(in.l1sock, in.l2sock)
-	orcas.VerifResetLockSets()
+	// the program's orcas.Locked gets slot appLockSlot, whatever the harness has handed out so far
+	cursor := orcas.VerifSwapLockCursor(appLockSlot - 1)
+	defer func() { in.lastLockSlot = orcas.VerifSwapLockCursor(cursor) }()
 	vflag.Reset(in.args)
 	vnet.ListenHook = func(network, address string) (net.Listener, error) {
 		appMu.Lock()
@@ -183,9 +188,21 @@ func (w *World) LockSlot() uint32 {
 		if w.app == nil {
 			w.startApp()
 		}
-		return 1 // the table was reset right before the program ran: its orcas.Locked got the first set
+		return appLockSlot
 	}
 	return lockedSlot(w.Cfg)
+}
+
+// ExtraLockSlots lists lock sets the deployment created beyond the first (none, as the program is
+// written; they are instrumented all the same so that nothing under the scheduler meets a bare mutex).
+func (w *World) ExtraLockSlots() []uint32 {
+	var out []uint32
+	if w.Cfg.App && w.app != nil {
+		for s := uint32(appLockSlot + 1); s <= w.app.lastLockSlot && s < 1024; s++ {
+			out = append(out, s)
+		}
+	}
+	return out
 }
 
 func (w *World) connectApp(port int) *Session {
